@@ -167,6 +167,28 @@ theorem sst_text_roundtrip (cstTotal : Nat) (texts : List (List Nat)) (table : L
   intro t ht
   exact utf16_roundtrip t (hscalar t ht)
 
+/-! ## strings inside one record (sheet names, LABEL / STRING values) -/
+
+/-- an XLUnicodeString (cch u16, flags, characters in either packing; the empty string included) followed by
+    anything reads back as its text -/
+theorem string_roundtrip (wide : Bool) (us : List Nat) (trail : Bytes)
+    (hlt : ∀ u ∈ us, u < 65536) (hcch : us.length < 65536) (hpack : wide = false → ∀ u ∈ us, u < 256) :
+    parseString (xlUnicodeString wide us ++ trail) true = .ok (decodeUtf16 us) :=
+  parseString_roundtrip wide us trail hlt hcch hpack
+
+/-- a ShortXLUnicodeString (cch u8, flags, characters in either packing) reads back as its text -/
+theorem short_string_roundtrip (wide : Bool) (us : List Nat) (trail : Bytes)
+    (hlt : ∀ u ∈ us, u < 65536) (hcch : us.length < 256) (hpack : wide = false → ∀ u ∈ us, u < 256) :
+    parseShortString (shortXlUnicodeString wide us ++ trail) true = .ok (decodeUtf16 us) :=
+  parseShortString_roundtrip wide us trail hlt hcch hpack
+
+/-! ## termination of the modelled loops -/
+
+/-- on ANY byte stream the record loop + `parse_sst` model finishes within `stream length + 1` steps of fuel
+    (the budget the driver gives it): `outOfFuel` is never an answer -/
+theorem sst_reader_never_out_of_fuel (s : Bytes) : sstFromStream (s.length + 1) s ≠ .outOfFuel :=
+  sstFromStream_ne_fuel (s.length + 1) s (Nat.lt_succ_self _)
+
 /-! ## non-vacuity: a concrete table and two different legal layouts -/
 
 /-- "ab " then U+1F600 with one rich-text run and two ExtRst bytes -/
@@ -185,6 +207,7 @@ example : Legal 2 exTable exLayoutB := by decide
 example : frameSst (encodeSst 3 exTable exLayoutA) ≠ frameSst (encodeSst 2 exTable exLayoutB) := by decide
 example : sstFromStream 1 (frameSst (encodeSst 3 exTable exLayoutA)) = .ok [[0x61, 0x62, 0x20], [0x1F600]] :=
   sst_roundtrip 3 exTable exLayoutA (by decide) 0
+example : parseString (xlUnicodeString false [] ++ [7]) true = .ok [] := by decide
 /-- a break inside the surrogate pair is not legal -/
 example : ¬ Legal 1 [{ units := [0xD83D, 0xDE00] }] [{ wide0 := true, cuts := [(1, true)] }] := by decide
 
